@@ -43,6 +43,10 @@ def connect_paths():
                 out.append(tok[5:])
             elif tok == ".setConnected":
                 out.append("SET")
+            elif tok == ".openProtocol":
+                out.append("OPEN")
+            elif tok == ".useProtocol":
+                out.append("USE")
         return out
     import re
     ok = steps(re.search(r"connectOk := \[(.*?)\]\n", txt).group(1))
@@ -173,7 +177,12 @@ async def stub_connect(self):
         await env["ctl"].point()
         if s == "RAISE":
             raise StubError("_connect")
-        await self._event_handler(GeckoSpaEvent[s])
+        elif s == "OPEN":
+            self._protocol = StubProtocol()
+        elif s == "USE":
+            self._protocol.get       # what `await self._protocol.get(..)` does first: AttributeError once disconnect() cleared it
+        else:
+            await self._event_handler(GeckoSpaEvent[s])
 
 
 async def stub_get_watercare(self):
@@ -186,6 +195,14 @@ async def stub_get_watercare(self):
         return 1
     await self._event_handler(GeckoSpaEvent.ERROR_PROTOCOL_RETRY_COUNT_EXCEEDED)
     return None
+
+
+class StubProtocol:
+    def get(self, *a, **k):
+        raise NotImplementedError
+
+    def disconnect(self):
+        pass
 
 
 class StubWaterCare:
@@ -215,8 +232,15 @@ class patched:
         import geckolib.async_spa_manager as man
         from geckolib.async_locator import GeckoAsyncLocator
         from geckolib.async_spa import GeckoAsyncSpa
-        self.saved = [(GeckoAsyncLocator, "discover", GeckoAsyncLocator.discover), (GeckoAsyncSpa, "_connect", GeckoAsyncSpa._connect),
+        real_init = GeckoAsyncSpa.__init__
+
+        def spa_init(spa, *a, **k):
+            real_init(spa, *a, **k)
+            ENV.get()["rig"].last_spa = spa     # the object `_connect` will run on (the manager may drop its reference meanwhile)
+        self.saved = [(GeckoAsyncSpa, "__init__", real_init),
+                      (GeckoAsyncLocator, "discover", GeckoAsyncLocator.discover), (GeckoAsyncSpa, "_connect", GeckoAsyncSpa._connect),
                       (GeckoAsyncSpa, "async_get_watercare", GeckoAsyncSpa.async_get_watercare), (man, "GeckoAsyncFacade", man.GeckoAsyncFacade)]
+        GeckoAsyncSpa.__init__ = spa_init
         GeckoAsyncLocator.discover = stub_discover
         GeckoAsyncSpa._connect = stub_connect
         GeckoAsyncSpa.async_get_watercare = stub_get_watercare
@@ -264,6 +288,7 @@ class Rig:
         if name:
             kw["spa_name"] = "Spa 0"
         self.man = Man("c08-client", **kw)
+        self.last_spa = None      # the most recently constructed GeckoAsyncSpa
         self.pool = []            # parked tasks: (task, ctl, record)
         self.cur = None           # record of the running input
         self.facades = {}         # id -> {"ready": n, "teardown": n}  (direct monitor)
@@ -279,14 +304,15 @@ class Rig:
         m = self.man
         spa = m._spa
         return {"state": m.spa_state.name, "facade": m.facade is not None, "spa": spa is not None,
-                "conn": bool(spa is not None and spa.is_connected), "desc": m.spa_descriptors is not None,
+                "conn": bool(spa is not None and spa.is_connected), "proto": bool(self.last_spa is not None and self.last_spa._protocol is not None),
+                "desc": m.spa_descriptors is not None,
                 "sensor": m.status_sensor is not None, "radio": m.radio_sensor is not None, "chan": m.channel_sensor is not None,
                 "ident": m._spa_identifier is not None, "name": m._spa_name is not None, "text": self.text()}
 
     def show_state(self, outcome):
         s = self.state()
         b = lambda x: "1" if x else "0"  # noqa
-        return (f"S={s['state']} f{b(s['facade'])} s{b(s['spa'])} c{b(s['conn'])} d{b(s['desc'])} n{b(s['sensor'])} r{b(s['radio'])} "
+        return (f"S={s['state']} f{b(s['facade'])} s{b(s['spa'])} c{b(s['conn'])} p{b(s['proto'])} d{b(s['desc'])} n{b(s['sensor'])} r{b(s['radio'])} "
                 f"h{b(s['chan'])} t={s['text']}|O={outcome}|P={len(self.pool)}")
 
     async def on_delivery(self, event):
@@ -403,7 +429,7 @@ class Rig:
             STATS["status_text_stale_at_rest"] += 1
             STATS.setdefault("status_text_stale_example", f"state {s['state']} text {self.man.status_sensor.state!r} after {self.cur.get('op')}")
         STATS["rest_samples"] += 1
-        if s["state"] == "CONNECTED" and not (s["facade"] and s["spa"] and s["conn"]):
+        if s["state"] == "CONNECTED" and not (s["facade"] and s["spa"] and s["conn"] and self.man._spa._protocol is not None):
             self.problems.append(("connected-without-live-facade", f"{s}"))
 
     async def _settle(self, task, ctl, rec):
@@ -425,7 +451,7 @@ class Rig:
         ctl = Ctl(stop)
         rec = {"op": op, "events": [], "pre_state": self.man.spa_state.name, "interleaved": bool(self.pool)}
         env = env_of(op)
-        env.update(ctl=ctl, rec=rec)
+        env.update(ctl=ctl, rec=rec, rig=self)
         task = asyncio.ensure_future(self._task(op, env))
         out = await self._settle(task, ctl, rec)
         return "D=" + ";".join(self.cur["deliveries"]) + "|" + self.show_state(out)
@@ -587,17 +613,18 @@ async def random_run(rng, alpha, length, concurrent, ident, name):
 
 
 # ------------------------------------------------------------------------------------------------ the check
-def report(ctx, sched, ident, name, probs, shortest):
-    """turn monitor failures into violations with stable keys: kind + the shortest schedule seen for (kind, failing input, state before)"""
+def report(ctx, sched, ident, name, probs, shortest, rank):
+    """turn monitor failures into violations with stable keys: per (kind, class of the failing input) the FIRST schedule in the
+    deterministic breadth-first order of part A (rank 0), else the shortest seeded schedule (rank 1)"""
     for i, kind, detail in probs:
         prefix = sched[:i + 1]
         last = prefix[-1]
         cls = (last[1].split(":")[0] if last[0] == "start" else "resume")
-        ident_key = (kind, cls)
         txt = sched_str(prefix)
-        cur = shortest.get(ident_key)
-        if cur is None or (len(prefix), txt) < (len(cur[0]), cur[1]):
-            shortest[ident_key] = (prefix, txt, ident, name, detail)
+        r = rank + (len(prefix), txt)
+        cur = shortest.get((kind, cls))
+        if cur is None or r < cur[0]:
+            shortest[(kind, cls)] = (r, txt, ident, name, detail)
 
 
 EXPECT = {"teardown-without-facade": "every CLIENT_FACADE_TEARDOWN is delivered while manager.facade is not None",
@@ -637,18 +664,18 @@ def run(ctx):
         with patched():
             return await explore_states(alpha, configs, 600, 6 if ctx.quick else 9)
     results, seen = vloop.run_virtual(body_a, seed=ctx.seed)
-    for sched, ident, name, lines, ans, probs in results:
+    for n_a, (sched, ident, name, lines, ans, probs) in enumerate(results):
         where.append((len(all_lines), sched, ident, name))
         all_lines += lines
         all_ans += ans
-        report(ctx, sched, ident, name, probs, shortest)
+        report(ctx, sched, ident, name, probs, shortest, (0, n_a))
         ctx.count("evaluations")
         ctx.hist("inputs", sched[-1][1].split(":")[0])
     ctx.cov["real_manager_states_reached"] = len(seen)
     ctx.cov["single_input_runs"] = len(results)
 
     # ---- B: seeded sequences, sequential and with calls parked at deliveries / awaits while others run
-    nseq = 150 if ctx.quick else 1500
+    nseq = 600 if ctx.quick else 8000
     maxlen = 6 if ctx.quick else 9
     conc_shapes = set()
 
@@ -663,7 +690,7 @@ def run(ctx):
         where.append((len(all_lines), sched, ident, name))
         all_lines += lines
         all_ans += ans
-        report(ctx, sched, ident, name, probs, shortest)
+        report(ctx, sched, ident, name, probs, shortest, (1, 0))
         ctx.count("evaluations", len(sched))
         parked = sum(1 for a in ans if a.endswith("|O=parked|P=1") or "|O=parked|" in a)
         ctx.hist("sequence_kind", "interleaved" if parked else "sequential")
@@ -691,7 +718,7 @@ def run(ctx):
                                           {"schedule": sched_str(w[1][:i - w[0]]), "ident": w[2], "name": w[3], "op": all_lines[i], "model": mo, "impl": im})
         ctx.cov["correspondence_ops"] = len(all_lines)
         ctx.cov["correspondence_disagreements"] = nd
-    for (kind, cls), (prefix, txt, ident, name, detail) in sorted(shortest.items()):
+    for (kind, cls), (_, txt, ident, name, detail) in sorted(shortest.items()):
         ctx.violation(f"{kind}:{txt}", {"schedule": txt, "ident": ident, "name": name, "kind": kind}, EXPECT.get(kind, kind), detail)
     if where:
         ctx.sample({"schedule": sched_str(where[0][1]), "answers": all_ans[1:3]})
@@ -723,7 +750,7 @@ def replay(inp):
 
 
 FALLBACK_ALPHABET = ["enter", "exit", "locate:f0", "locate:f1", "locate:r0",
-                     "connect:CONNECTION_GOT_FIRMWARE_VERSION,CONNECTION_GOT_CHANNEL,CONNECTION_GOT_CONFIG_FILES,CONNECTION_INITIAL_DATA_BLOCK_REQUEST,SET,CONNECTION_SPA_COMPLETE:0",
-                     "connect:CONNECTION_PROTOCOL_RETRY_COUNT_EXCEEDED:0", "connect:RAISE:0",
+                     "connect:OPEN,USE,CONNECTION_GOT_FIRMWARE_VERSION,USE,CONNECTION_GOT_CHANNEL,USE,CONNECTION_GOT_CONFIG_FILES,CONNECTION_INITIAL_DATA_BLOCK_REQUEST,USE,SET,CONNECTION_SPA_COMPLETE:0",
+                     "connect:OPEN,USE,CONNECTION_PROTOCOL_RETRY_COUNT_EXCEEDED:0", "connect:RAISE:0",
                      "ev:RUNNING_PING_RECEIVED", "ev:ERROR_RF_ERROR", "ev:RUNNING_SPA_PACK_REFRESHED", "ev:ERROR_PROTOCOL_RETRY_COUNT_EXCEEDED",
                      "pingmiss:1", "rferr:1", "wcerr:1", "wcerr:0", "reset", "info:11", "info:00"]
